@@ -3,14 +3,23 @@ package main
 import (
 	"fmt"
 
-	"google.golang.org/protobuf/encoding/protojson"
-	"google.golang.org/protobuf/types/known/wrapperspb"
+	"github.com/grpc-ecosystem/grpc-gateway/v2/utilities"
 )
 
 func main() {
-	for _, t := range []string{"0", "1", "42", `"0"`} {
-		m := &wrapperspb.Int32Value{}
-		err := protojson.Unmarshal([]byte(t), m)
-		fmt.Println(t, m.Value, err)
+	for _, seqs := range [][][]string{
+		{{"n", "deep", "z"}, {"n", "x"}},
+		{{"n", "x"}, {"n", "deep", "z"}},
+		{{"b", "a", "d"}, {"b", "d"}},
+		{{"parent", "id"}, {"parent", "name"}},
+		{{"parent", "name"}, {"parent", "id"}},
+		{{"book", "shelf", "id"}, {"book", "id"}},
+		{{"book", "id"}, {"book", "shelf", "id"}},
+		{{"a", "b"}, {"a", "c"}, {"a", "d"}},
+	} {
+		da := utilities.NewDoubleArray(seqs)
+		for _, s := range seqs {
+			fmt.Println(seqs, "lookup", s, "=>", da.HasCommonPrefix(s))
+		}
 	}
 }
